@@ -29,8 +29,8 @@
      - concrete results of successful arithmetic (only the kind is kept), the text of
        printed values and of warnings (only the class), time (a suspended thread resumes in a
        later frame), the contents of other threads (a started sub-thread prints one marker).
-   Not modelled (kept out of the default generation, recorded as a known finding): a `$name`
-   target list captured in a variable after the list itself was dropped. *)
+   `$name` with several bearers is a snapshot (a constant array of weak references, /repo
+   8228a47): kind Container has no representative any more (no script produces one). *)
 From Coq Require Import ZArith List Bool.
 Import ListNotations.
 Local Open Scope Z_scope.
@@ -89,8 +89,7 @@ Definition kind_of (r : rep) : kind :=
   | Rch => KChar
   | Rv0 | Rv123 => KVec
   | Rarr | Rearr => KArray
-  | Rca123 | Rcal => KCArr
-  | Rgrp => KCont
+  | Rca123 | Rcal | Rgrp => KCArr        (* $name with several bearers: a snapshot, a constant array *)
   | Rptr => KPtr
   end.
 
@@ -315,7 +314,7 @@ Definition un (dbg : bool) (u : unop) (a : aval) : option outcome :=
       match tgt_of r with
       | TNone => if dbg then err WNoTarget (OfKind KListener) else ok KListener
       | TOne => ok KListener
-      | TMany => ok KCont
+      | TMany => ok KCArr
       end
     end
   | UInc | UDec =>
@@ -488,13 +487,31 @@ Definition field_get (recv : aval) : option outcome :=
   | Some (LLive _) => okv nil_v
   end.
 
-(* OP_LOAD_FIELD_VAR *)
-Definition field_set (recv : aval) : option (list wclass) :=
+(* OP_LOAD_FIELD_VAR.  A target of array size >= 2 (hash array, constant array, target list)
+   is a GROUP: ScriptVM::loadTopGroup snapshots it and assigns a copy of the value to every
+   member, from the highest index down; a member that is no listener raises the cast error of
+   listenerAt there (the members above it are already assigned), a dead member is skipped.
+   Of a group only the representatives are followed (their members are known). *)
+Definition field_set_one (recv : aval) : option (list wclass) :=
   match lsn_av recv with
   | None => None
   | Some (LErr w) => Some [w]
   | Some LNull => Some [WNullField]
   | Some (LLive _) => Some []
+  end.
+
+Definition field_set (recv : aval) : option (list wclass) :=
+  match recv with
+  | OfKind KArray | OfKind KCArr | OfKind KCont => None
+  | OfKind _ => field_set_one recv
+  | Exact r =>
+    if 1 <? arraysize_of r then
+      match r with
+      | Rcal | Rgrp => Some []                 (* every member is a live listener *)
+      | Rca123 | Rarr => Some [WCast]          (* a member that is no listener *)
+      | _ => None
+      end
+    else field_set_one recv
   end.
 
 (* ------------------------------------------------------------------ receivers of commands *)
